@@ -29,6 +29,9 @@ type Project struct {
 	RootSpelling string `json:"root_spelling,omitempty"`
 	// BanSplit: the banned kinds are passed as one core.WithBannedDirectives option each instead of one option for all.
 	BanSplit bool `json:"ban_split,omitempty"`
+	// FixedDir: the project is written to (and built from) this named directory of the work area instead of a fresh one:
+	// consecutive builds then use the same file paths (the directory is emptied first).
+	FixedDir string `json:"fixed_dir,omitempty"`
 }
 
 func SingleFile(data []byte) *Project {
@@ -38,7 +41,7 @@ func SingleFile(data []byte) *Project {
 func (p *Project) RootBytes() []byte { return p.Files[p.Root] }
 
 func (p *Project) Clone() *Project {
-	q := &Project{Root: p.Root, Files: map[string][]byte{}, NoRoot: p.NoRoot, ViaPath: p.ViaPath, RootSpelling: p.RootSpelling, BanSplit: p.BanSplit}
+	q := &Project{Root: p.Root, Files: map[string][]byte{}, NoRoot: p.NoRoot, ViaPath: p.ViaPath, RootSpelling: p.RootSpelling, BanSplit: p.BanSplit, FixedDir: p.FixedDir}
 	for k, v := range p.Files {
 		q.Files[k] = append([]byte(nil), v...)
 	}
